@@ -59,7 +59,8 @@ pub fn two_sheeted_covers(s: &RS) -> Vec<RS> {
             }
         };
         let c = s.cover_by(2, &shift);
-        if c.v.iter().all(|r| r.iter().all(|&x| x > 0)) && c.is_connected() {
+        // a covering of the symbol: adjacent degrees divide (v > 0) and distant operations still commute
+        if c.v.iter().all(|r| r.iter().all(|&x| x > 0)) && c.is_connected() && c.commutes() {
             out.insert(c);
         }
     }
